@@ -552,7 +552,7 @@ class ClientResponse(HeadersMixin):
                 if self._continue is not None:
                     set_result(self._continue, True)
                     self._continue = None
-                elif (
+                if (
                     self._writer is None
                     and not protocol.is_eof()  # type: ignore[union-attr]
                     and not len(protocol)  # type: ignore[arg-type]
